@@ -39,7 +39,7 @@ CLAIMED = {
             "property-based testing (rapid) on the rig + raw protocol peer addressing namespaces it did not join",
             "rapid over 2..4 namespaces on one connection with per-namespace emits, acks, rooms of the same name, middleware rejections and disconnects of a single namespace; raw peer sending events, acks "
             "and disconnects for namespaces it has not joined / was refused. Oracle: every event, ack and room broadcast is seen only in the namespace it was sent in; a namespace disconnect or rejection "
-            "leaves the others connected and working; traffic for a non-joined namespace never reaches a handler.",
+            "leaves the others connected and working; traffic for a non-joined namespace never reaches a handler; a namespace that was left can be joined again on the same connection; a broadcast issued while a slow middleware still decides does not reach the unadmitted connection; two simultaneous CONNECT packets admit one socket; volatile emits on an unattached socket put nothing on the shared connection.",
             "Virtual-time rig; namespaces are static (no dynamic namespace regexp).",
             "DESIGN.md §3 C05"),
     "C06": ("fault_enumeration",
@@ -49,7 +49,7 @@ CLAIMED = {
             "DESIGN.md §3 C06"),
     "C07": ("exploration",
             "property-based testing (rapid) at Engine.IO level in virtual time with forced yields inside the upgrade and injected link faults",
-            "0..30 numbered text/binary messages both ways at instants spread over the upgrade (microsecond resolution), WebSocket latency 0..20 ms, bursts fired from the yield hooks right before the transport swap on either side and from UpgradeDone; disturbed upgrades: WebSocket link cut at a drawn byte offset 0..400 or black-holed; then traffic after 15 s and 3 heartbeat periods. Oracle: multiset received == sent on both sides, no close, a completed upgrade ends on websocket on both sides, a disturbed one leaves both sides agreeing on the transport with traffic flowing.",
+            "0..30 numbered text/binary messages both ways at instants spread over the upgrade (microsecond resolution), WebSocket latency 0..20 ms, bursts fired from the yield hooks right before the transport swap on either side and from UpgradeDone; disturbed upgrades: WebSocket link cut at a drawn byte offset 0..400 or black-holed; then traffic after 15 s and 3 heartbeat periods. Oracle: multiset received == sent on both sides, no close, a completed upgrade ends on websocket on both sides, a disturbed one leaves both sides agreeing on the transport with traffic flowing. c07-paused-poll: a hand-written client that pauses polling during the upgrade (as the reference client does) while 1..3 server goroutines keep sending; the backlog of the polling transport, the heartbeat PING included, must come out of the WebSocket exactly once and per sender in order, and the session must stay open.",
             "Disturbed upgrades carry no traffic inside the window (virtual-time artifact otherwise); a cut after the completed upgrade is outside the property. Socket.IO-level upgrade traffic is covered by C01's upgrade class.",
             "DESIGN.md §3 C07"),
     "C08": ("exploration",
@@ -102,7 +102,7 @@ CLAIMED = {
             "server over memnet in a synctest bubble: the server is taken away (links cut, dials refused) and given back after a drawn time (or never, or twice), with ReconnectionAttempts 0..5, three delays, "
             "four max factors, three jitters, and 0..10 emits (plain / volatile / ack-with-timeout) before, during and after the outage and while the CONNECT is pending; oracle on the manager's reconnect_* "
             "events with virtual timestamps (attempt numbers, every gap in (0, max], first gap in the jitter band, exactly N attempts then reconnect_failed once, then silence; reconnect when reachable) and "
-            "on delivery (offline plain emits exactly once and in order after the reconnect, volatile never, timed-out ack emits purged with ErrAckTimeout once).",
+            "on delivery (offline plain emits exactly once and in order after the reconnect, volatile never, timed-out ack emits purged with ErrAckTimeout once); optionally one lifecycle dispatch held back (forced schedule). (c) c15-stream-order: producers that emit right through a reconnection against an endpoint that records arrival order (nothing overtakes the offline backlog). (d) c15-close-stops: Manager.Close() at a drawn microsecond of an outage stops the reconnection for good; Connect()/Open() later brings the socket up, delivers what was emitted meanwhile once, and reconnection works again.",
             "Jitter comes from the library's use of math/rand's global source, so replays of cases with jitter > 0 are not bit-reproducible. Order of the offline flush is read from long-polling bodies only.",
             "DESIGN.md §3 C15"),
     "C17": ("exploration",
